@@ -85,3 +85,50 @@ def install_clamp_init_model():
     CL.scipy = ScipyFacade(minimize_exact_root)
     return "optimize.clamps.clamp: scipy.optimize.minimize (initial parameters) -> fresh in-bounds parameters x with " \
            "distance(x) == 0 (exact minimiser of an attainable zero distance)"
+
+
+def brentq_model(f, a, b, *args, **kw):
+    """scipy.optimize.brentq contract: raises ValueError unless f(a) and f(b) have opposite signs; otherwise returns
+    some x in [a, b] with f(x) == 0 (a root exists for continuous f)."""
+    sx = api.CUR
+    if sx is None or not sx.sym or not any(isinstance(v, R) for v in (a, b, f(a))):
+        return scipy.optimize.brentq(f, a, b, *args, **kw)
+    fa, fb = R.lift(f(a)), R.lift(f(b))
+    if not (fa * fb < 0):
+        if bool(fa == 0):
+            return a
+        if bool(fb == 0):
+            return b
+        raise ValueError("f(a) and f(b) must have different signs")
+    _counter["n"] += 1
+    x = sx.real(f"brentq{_counter['n']}")
+    ctx = Ctx.cur
+    lo, hi = R.lift(a), R.lift(b)
+    ctx.add(z3.And(x.z() >= lo.z(), x.z() <= hi.z()))
+    val = R.lift(f(x))
+    cond = z3.simplify(val.z() == 0)
+    if ctx.check(cond) == "unsat":
+        raise core.Infeasible()
+    ctx.add(cond)
+    return x
+
+
+def install_brentq_model():
+    import classy_blocks.grading.relations as RL
+
+    class _Opt:
+        brentq = staticmethod(brentq_model)
+
+        def __getattr__(self, name):
+            return getattr(scipy.optimize, name)
+
+    class _Sc(types.ModuleType):
+        def __init__(self):
+            super().__init__("scipy_rel_facade")
+            self.optimize = _Opt()
+
+        def __getattr__(self, name):
+            return getattr(scipy, name)
+
+    RL.scipy = _Sc()
+    return "grading.relations: scipy.optimize.brentq -> ValueError unless f(a)*f(b) < 0, else a fresh x in [a,b] with f(x) == 0"
